@@ -2,11 +2,27 @@
 
 Units: DrawTable::{new, clear, add_board_to_draw_table, is_threefold_repetition} over std HashMap<u64,u8>
 (vstd's hash-map model).  count(m,k) = m[k] if k in dom else 0.
-Dropped: remove_board_from_draw_table (`Some(&val)` reference pattern is outside the Verus subset; it only
-matters for the search clause, which is not decided here).
+remove_board_from_draw_table: the `Some(&val)` reference pattern is outside the Verus subset, so its `if let` header gets the
+exact-text rewrite R5 (`Some(&val)` -> `Some(__r)` + `let val = *__r;`, u8 is Copy: same meaning); its contract is the exact
+inverse of add on a key that is present with a positive count, and lemma_add_then_remove states that add followed by remove
+restores every count (what the search relies on when it walks a line and backs out).
 """
+R5 = ('R5', "        if let Some(&val) = self.table.get(&board.zobrist_key) {\n",
+      "        if let Some(__r) = self.table.get(&board.zobrist_key) {\n            let val = *__r;\n")
 SPEC = r'''
 pub open spec fn count(m: Map<u64, u8>, k: u64) -> int { if m.dom().contains(k) { m[k] as int } else { 0 } }
+'''
+LEMMAS = r'''
+// add followed by remove (the search's walk-and-back-out) restores every count
+pub proof fn lemma_add_then_remove(m0: Map<u64, u8>, m1: Map<u64, u8>, m2: Map<u64, u8>, key: u64)
+    requires
+        count(m0, key) < 255,
+        forall|k: u64| count(m1, k) == count(m0, k) + (if k == key { 1int } else { 0int }),
+        forall|k: u64| count(m2, k) == count(m1, k) - (if k == key && count(m1, k) >= 1 { 1int } else { 0int }),
+    ensures
+        forall|k: u64| count(m2, k) == count(m0, k),
+{
+}
 '''
 P = ('C10',)
 HINT = 'broadcast use vstd::std_specs::hash::group_hash_axioms;'
@@ -29,4 +45,11 @@ def build(g):
               # statement: "a position that has already occurred at least twice" is a draw
               'ensures': ['res == (count(old(self).table@, board.zobrist_key) >= 2)', 'final(self).table@ == old(self).table@'],
               'body_start': HINT}, qual='DrawTable::is_threefold_repetition', **I),
+          g.fn('draw_table', 'remove_board_from_draw_table', {
+              # a present key must have a positive count (u8 subtraction); an absent key is left alone
+              'requires': ['old(self).table@.dom().contains(board.zobrist_key) ==> old(self).table@[board.zobrist_key] >= 1'],
+              'ensures': ['forall|k: u64| count(final(self).table@, k) == count(old(self).table@, k) - (if k == board.zobrist_key && count(old(self).table@, k) >= 1 { 1int } else { 0int })',
+                          'final(self).table@.dom() =~= old(self).table@.dom()'],
+              'body_start': HINT}, qual='DrawTable::remove_board_from_draw_table', rewrites=[R5], **I),
           '}')
+    g.add(LEMMAS)
